@@ -428,13 +428,19 @@ pub fn json_schema_to_cedar_schema_str<N: Display>(
 ) -> Result<String, ToCedarSchemaSyntaxError> {
     let mut name_collisions: Vec<InternalName> = Vec::new();
     for (name, ns) in json_schema.0.iter() {
-        let entity_types: HashSet<InternalName> = ns
+        let mut entity_types: HashSet<InternalName> = ns
             .entity_types
             .keys()
             .map(|ty_name| {
                 RawName::new_from_unreserved(ty_name.clone(), None).qualify_with_name(name.as_ref())
             })
             .collect();
+        // A namespace that declares actions implicitly declares the entity type `Action`
+        if !ns.actions.is_empty() {
+            if let Ok(action_ty) = RawName::parse_unqualified_name(crate::ast::ACTION_ENTITY_TYPE) {
+                entity_types.insert(action_ty.qualify_with_name(name.as_ref()));
+            }
+        }
         let common_types: HashSet<InternalName> = ns
             .common_types
             .keys()
